@@ -40,7 +40,7 @@ def corpus(tier):
     """(kernel, origin property) for every default-configuration kernel of the other rule modules"""
     out = []
     seen = set()
-    for prop in ('c01', 'c12', 'c10', 'c02'):
+    for prop in ('c01', 'c12', 'c10', 'c14', 'c02'):
         mod = importlib.import_module('rules.' + prop)
         for c in mod.cases('quick'):
             if c.canary:
